@@ -215,6 +215,13 @@ def _solve_stages(args, ctl=None):
 
     if expect != "valid":  # vacuity (cover) checks: a model is wanted, only the full configuration counts
         r, reason = _z3_check(text, timeout_ms)
+        if r == "unsat":
+            # "the hypotheses are contradictory" is an `unsat` like any other: it counts only when a second solver build agrees
+            # (DESIGN 0.4; observed: z3 5.1.0 answering unsat on Group.remove_units/cover.return in 1 s inside a full run, while
+            # the same text, up to generated names, times out in z3 5.1.0 and 4.8.12 when solved on its own)
+            c = confirm_unsat(text, {}, time.time() - t0)
+            if not c.startswith("confirmed"):
+                r, reason = "unknown", f"unsat from z3 {z3.get_version_string()} only ({c}); no contradiction established"
         yield name, r, "z3", time.time() - t0, reason
         return
     r1, _ = _z3_check(text, 2500, LIN)
